@@ -114,10 +114,16 @@ func runOneMuxStorm(c msCase) (sx.V, sx.V) {
 				mu.Unlock()
 			}()
 		}
-		wg.Wait()
+		if !within(25*time.Second, wg.Wait) {
+			// exchanges that never come back (a dial or an accept blocked for good): counted as failed, the session is given up
+			mu.Lock()
+			failed += c.PerWave
+			mu.Unlock()
+			break
+		}
 	}
 	close(stop)
-	bg.Wait()
+	within(10*time.Second, bg.Wait)
 	time.Sleep(20 * time.Millisecond)
 	mu.Lock()
 	defer mu.Unlock()
